@@ -86,6 +86,11 @@ def run(ctx):
         ctx.guarded(r, AC.check_choice_protocol, kind)
     r = ctx.rule("R6", "interval min/max choices are Left / Right only for strictly separated operands", 4)
     ctx.guarded(r, r6_interval_choice)
+    from .. import x86pw as PW86
+
+    r = ctx.rule("R7v", "x86_64 tracing min / max / and / or record Left / Right exactly on the order types where the interpreter does (a choice decided too eagerly simplifies away an operand that still matters)", 8)
+    for kind in AC.TRACING:
+        ctx.guarded(r, PW86.check_piecewise, kind, only=PW86.CHOICE_OPS)
     r = ctx.rule("R4", "a cached simplification is reused only for the same trace; new children are keyed by a copy of their trace", 11)
     ctx.guarded(r, RH.r_cache_key)
     # CopyReg / CopyImm exist only on simplified tapes (a decided choice that keeps a shared operand alive),
